@@ -118,7 +118,7 @@ func c03Lens(name string, d consts.ActiveSafetyType) []int {
 	}
 	max, capped := 40, false
 	if vrt_Tier() > 0 {
-		max = 100
+		max = 70
 	}
 	if c, ok := c03Caps[name]; ok {
 		max, capped = c[vrt_Tier()], true
@@ -205,7 +205,7 @@ func VerifC03History() {
 	ti, ver, d := c03Pick()
 	lens := []int{5, 7, 36, 62}
 	if vrt_Tier() > 0 {
-		lens = []int{0, 1, 2, 5, 7, 12, 28, 30, 33, 36, 40, 47, 62, 70, 105}
+		lens = []int{0, 1, 2, 5, 7, 12, 28, 33, 36, 47, 62, 105}
 	}
 	if c, ok := c03Caps[ti.Name]; ok {
 		// TLV / count-driven parsers: stay within the type's dense bound
